@@ -492,8 +492,45 @@ SPECIAL_SHAPES = {
 }
 
 
+DUNDER_ATTR_PROG = '''class A:
+    __tag__ = "A"
+    def __describe__(self):
+        return "A.d"
+class M:
+    __tag__ = "M"
+class B(A):
+    pass
+class C(M, B):
+    pass
+def rd(label, f):
+    try:
+        print(label, f())
+    except AttributeError:
+        print(label, "AttributeError")
+for K in (A, B, C):
+    o = K()
+    p = K()
+    rd("tag", lambda: o.__tag__)
+    rd("desc", lambda: o.__describe__())
+    o.__tag__ = "own"
+    o.__describe__ = lambda: "own d"
+    o.__fresh__ = "f"
+    rd("tag-after-write", lambda: (o.__tag__, getattr(o, "__tag__"), p.__tag__, K.__tag__))
+    rd("desc-after-write", lambda: (o.__describe__(), p.__describe__()))
+    rd("fresh", lambda: (o.__fresh__, getattr(p, "__fresh__", "none")))
+    o.__doc__ = "doc of o"
+    rd("doc", lambda: (o.__doc__, p.__doc__, K.__doc__))
+    del o.__tag__
+    rd("tag-after-del", lambda: o.__tag__)
+    K.__tag__ = "K!"
+    rd("tag-after-class-write", lambda: (o.__tag__, p.__tag__))
+    o.__class_like__ = 1
+    rd("class-like", lambda: o.__class_like__)
+'''
+
+
 def special_method_programs():
-    out = []
+    out = [{'id': 'spm-dunder-named-attributes', 'src': DUNDER_ATTR_PROG, 'method': 'dunder-named user attributes', 'shape': 'instance-vs-class'}]
     pre = 'def w(o):\n    with o as v:\n        return v\n'
     for name, (d, use) in SPECIAL_DEFS.items():
         for shape, tmpl in SPECIAL_SHAPES.items():
